@@ -92,14 +92,17 @@ def gen_case(rng, mode=None, force=None):
             c = sorted(c)
         coords.append(c)
     ncell = math.prod(sizes)
-    vals = [v / 8.0 for v in rng.sample(range(-1600, 1600), ncell)]
+    if mode == "hist":
+        vals = [v / 8.0 for v in rng.sample(range(-1600, 1600), ncell)]
+    else:
+        vals = [v / 1024.0 for v in rng.sample(range(-200000, 200000), ncell)]
     cfg = {"mode": mode, "names": names, "sizes": sizes, "coords": coords, "var": "y" if mode != "heat" else "z",
            "xdim": xdim, "ydim": ydim, "xvals": None, "xvar": None}
     if mode == "hist":
         cfg["var"] = "v"
     if mode == "xvar":
         cfg["xvar"] = "xv"
-        cfg["xvals"] = [v / 8.0 for v in rng.sample(range(2000, 6000), ncell)]
+        cfg["xvals"] = [v / 1024.0 for v in rng.sample(range(300000, 700000), ncell)]
     # ---- mapping
     others = [d for d in range(n) if d not in special]
     rng.shuffle(others)
@@ -113,7 +116,7 @@ def gen_case(rng, mode=None, force=None):
         if not rest:
             break
         g = [rest.pop()]
-        while rest and rng.random() < 0.3 and len(g) < 3:
+        while rest and rng.random() < 0.3 and len(g) < 3 and math.prod(sizes[d] for d in g + [rest[-1]]) <= 12:
             g.append(rest.pop())
         groups.append(g)
     chosen = rng.sample(props, len(groups))
@@ -125,6 +128,8 @@ def gen_case(rng, mode=None, force=None):
             kk = rng.randint(1, len(labs))
             m["order"] = [list(l) for l in rng.sample(labs, kk)]
         maps.append(m)
+    if mode == "hist" and not rest and maps and rng.random() < 0.8:
+        rest = list(maps.pop()["dims"])          # keep something to bin over (all-mapped is a known defect)
     cfg["maps"] = maps
     unmapped = sorted(rest)
     # ---- options
@@ -188,7 +193,50 @@ def gen_case(rng, mode=None, force=None):
         cfg["xvals"] = [None if rng.random() < 0.12 else v for v in cfg["xvals"]]
     if mode == "hist" and all(v is None for v in cfg["vals"]):
         cfg["vals"][0] = vals[0]
+    if mode == "hist" and not isinstance(cfg.get("bins"), list) and rng.random() < 0.9:
+        dyadic_default_edges(cfg)
+    # aggregated values are mapped back to their cells numerically: they must be pairwise distinct
+    for _ in range(30):
+        if distinct_reduced(cfg):
+            break
+        fresh = [v / 1024.0 for v in rng.sample(range(-200000, 200000), ncell)]
+        cfg["vals"] = [None if o is None else f for o, f in zip(cfg["vals"], fresh)]
+        if cfg["xvals"] is not None:
+            fresh = [v / 1024.0 for v in rng.sample(range(300000, 700000), ncell)]
+            cfg["xvals"] = [None if o is None else f for o, f in zip(cfg["xvals"], fresh)]
     return cfg
+
+
+def dyadic_default_edges(cfg):
+    """bins=None / int: raise the largest value so that linspace(min, max, nbins + 1) falls on multiples of 1/8
+    (then the model can bin with exact integers; other cases are checked by the oracle only)."""
+    E = Expect(cfg)
+    ok = E.allowed_mask() & ~np.isnan(E.A)
+    if np.count_nonzero(ok) < 2:
+        return
+    b = cfg.get("bins")
+    nb = int(b) if b is not None else min(max(3, int(math.prod(E.sizes[d] for d in E.binned) ** 0.5)), 50)
+    vals = np.where(ok, E.A, -np.inf)
+    k = int(np.argmax(vals))
+    lo8, hi8 = int(round(float(E.A[ok].min()) * 8)), int(round(float(E.A[ok].max()) * 8))
+    hi8 += (-(hi8 - lo8)) % nb
+    taken = {v for v in cfg["vals"] if v is not None}
+    while hi8 / 8.0 in taken and hi8 / 8.0 != cfg["vals"][k]:
+        hi8 += nb
+    cfg["vals"][k] = hi8 / 8.0
+
+
+def distinct_reduced(cfg):
+    if cfg["mode"] == "hist" or cfg.get("agg") is None:
+        return True
+    E = Expect(cfg)
+    for t in (E.Ared, E.Xred):
+        if t is None:
+            continue
+        v = np.sort(t[np.isfinite(t)].ravel())
+        if v.size > 1 and np.min(np.diff(v)) < 1e-6:
+            return False
+    return True
 
 
 def nan_pattern(rng, cfg, vals):
@@ -238,6 +286,11 @@ def nan_pattern(rng, cfg, vals):
             a[sel & ~keep] = np.nan
         else:
             a[some_index([rng.choice(free)])] = np.nan
+    if np.all(np.isnan(a)) and rng.random() < 0.9:
+        orig = np.array(vals, dtype=float).reshape(sizes)
+        for _ in range(rng.randint(1, 4)):
+            k = tuple(rng.randrange(s) for s in sizes)
+            a[k] = orig[k]
     return [None if math.isnan(v) else float(v) for v in a.ravel().tolist()]
 
 
@@ -460,3 +513,684 @@ def hue_color_param(rgba):
         _CMAP_CACHE[key] = tab
     hits = _CMAP_CACHE[key].get(tuple(round(c, 9) for c in rgba), set())
     return [list(h) for h in sorted(hits)]
+
+
+# ------------------------------------------------------------------------------------------ the oracle
+def bold(s):
+    return r"$\bf{" + s.replace("_", r"\_") + r"}$"
+
+
+def value_str(cfg, dims, lab):
+    if len(dims) == 1:
+        return str(np.array(cfg["coords"][dims[0]])[lab[0]])
+    return str(tuple(np.array(cfg["coords"][d])[i].item() for d, i in zip(dims, lab)))
+
+
+def axis_name(cfg, dims):
+    return ", ".join(cfg["names"][d] for d in dims)
+
+
+def prop_axes(E):
+    """property -> index of its axis in E.axes, after the rule 'hue alone acts as color'."""
+    pa = {ax["prop"]: k for k, ax in enumerate(E.axes) if ax["prop"] is not None}
+    if "hue" in pa and "color" not in pa:
+        pa["color"] = pa.pop("hue")
+    return pa
+
+
+def is_cap(ln):
+    return ln["linestyle"] in ("None", "none", "") and ln["marker"] in ("_", "|")
+
+
+def degenerate(E):
+    """No finite value is left inside the explicit orders: there is nothing to draw (outside the guard)."""
+    ok = E.allowed_mask() & ~np.isnan(E.A)
+    if E.X is not None:
+        ok &= ~np.isnan(E.X)
+    return not bool(np.any(ok))
+
+
+def raise_key(cfg, obs, E):
+    if cfg["mode"] == "hist" and not E.binned:
+        return "histogram-all-dims-mapped-raises"
+    return f"raises-{cfg['mode']}-{obs['error']}"
+
+
+def raw_style(ln, p):
+    if p == "color":
+        return tuple(round(c, 9) for c in ln["color"])
+    if p == "marker":
+        return ln["marker"]
+    if p == "markersize":
+        return ln["markersize"]
+    if p == "linewidth":
+        return ln["linewidth"]
+    if p == "linestyle":
+        off, seq = ln["dash"]
+        return (off, None if seq is None else tuple(seq))
+    raise KeyError(p)
+
+
+N_DEFAULTS = {"marker": 15, "linestyle": 6, "markersize": 10 ** 9, "linewidth": 10 ** 9, "color": 10 ** 9}
+
+
+def check_panels_and_styles(cfg, obs, E, placed, bad):
+    """placed: list of (i, j, combo, line dict).  Panel = (index of row coordinate, index of col coordinate) among
+    the coordinates shown, in order; titles; style functional / injective; unmapped style constant."""
+    pa = prop_axes(E)
+    R, C = obs["shape"]
+    for prop, pos_of, size in (("row", lambda t: t[0], R), ("col", lambda t: t[1], C)):
+        if prop not in pa:
+            if size != 1:
+                bad.append(("wrong-panel", f"{prop} is not mapped but the figure has {size} {prop}s"))
+            continue
+        k = pa[prop]
+        labs = E.axes[k]["labels"]
+        seen = {}
+        for t in placed:
+            seen.setdefault(t[2][k], set()).add(pos_of(t))
+        for lab, poss in seen.items():
+            if len(poss) != 1:
+                bad.append(("wrong-panel", f"{prop} coordinate {lab} is drawn in {prop}s {sorted(poss)}"))
+        byidx = {}
+        for lab, poss in seen.items():
+            for q in poss:
+                byidx.setdefault(q, set()).add(lab)
+        for q, ls in byidx.items():
+            if len(ls) != 1:
+                bad.append(("wrong-panel", f"{prop} {q} holds lines of {prop} coordinates {sorted(ls)}"))
+        order = [lab for lab in labs if lab in seen]
+        idxs = [min(seen[lab]) for lab in order]
+        if any(b <= a for a, b in zip(idxs, idxs[1:])):
+            bad.append(("wrong-panel", f"{prop} coordinates {order} sit at indices {idxs}: order not kept"))
+        if size > len(labs):
+            bad.append(("wrong-panel", f"{size} {prop}s for {len(labs)} candidate coordinates"))
+    # titles
+    for (i, j, combo, ln) in placed:
+        parts = []
+        for prop in ("col", "row"):
+            if prop in pa:
+                ax = E.axes[pa[prop]]
+                parts.append(f"{bold(axis_name(cfg, ax['dims']))}={value_str(cfg, ax['dims'], combo[pa[prop]])}")
+        texts = obs["panels"][i][j]["texts"]
+        want = ", ".join(parts)
+        if parts and want not in texts:
+            bad.append(("panel-title-differs", f"panel ({i},{j}) holds the slice {combo} but is titled {texts}, not {want!r}"))
+    # styles
+    for p in STYLE_PROPS:
+        vals = [(t[2], raw_style(t[3], p)) for t in placed]
+        if p == "color" and "hue" in pa and "color" in pa:
+            kh, kc = pa["hue"], pa["color"]
+            fn = {}
+            for combo, v in vals:
+                fn.setdefault((combo[kh], combo[kc]), set()).add(v)
+            if any(len(s) != 1 for s in fn.values()):
+                bad.append(("style-not-functional", f"colour is not a function of the (hue, color) coordinates: {short(fn)}"))
+            else:
+                for (h1, c1), (h2, c2) in itertools.combinations(fn, 2):
+                    if (h1 == h2 or c1 == c2) and fn[(h1, c1)] == fn[(h2, c2)] and len(E.axes[kh]["labels"]) <= 9:
+                        bad.append(("style-not-injective", f"(hue, color) {(h1, c1)} and {(h2, c2)} share a colour"))
+                        break
+        elif p in pa:
+            k = pa[p]
+            fn = {}
+            for combo, v in vals:
+                fn.setdefault(combo[k], set()).add(v)
+            if any(len(s) != 1 for s in fn.values()):
+                bad.append(("style-not-functional", f"{p} is not a function of its mapped coordinate: {short(fn)}"))
+            elif len(E.axes[k]["labels"]) <= N_DEFAULTS[p]:
+                inv = {}
+                for lab, s in fn.items():
+                    inv.setdefault(next(iter(s)), []).append(lab)
+                dup = {v: ls for v, ls in inv.items() if len(ls) > 1}
+                if dup:
+                    bad.append(("style-not-injective", f"{p}: different coordinates share a style: {short(dup)}"))
+        else:
+            if len(set(v for _, v in vals)) > 1:
+                bad.append(("unmapped-style-varies", f"{p} is not mapped but takes the values {sorted(set(map(str, (v for _, v in vals))))[:4]}"))
+
+
+def short(d, n=300):
+    return str({str(k): (sorted(map(str, v)) if isinstance(v, (set, list)) else v) for k, v in d.items()})[:n]
+
+
+def oracle(cfg, obs, E=None):
+    """The property statement, checked directly on the artists (independent of the Coq model).
+    Returns [(key, message)], info."""
+    E = E or Expect(cfg)
+    bad, info = [], {}
+    if not obs.get("pure", True):
+        bad.append(("input-dataset-modified", "the dataset passed in is no longer identical to its deep copy"))
+    if degenerate(E):
+        info["degenerate"] = True
+        return bad, info
+    if "error" in obs:
+        bad.append((raise_key(cfg, obs, E), f"{obs['error']}: {obs['message'][:160]} at {obs['where'][-2:]}"))
+        return bad, info
+    if not obs.get("fig_is_figure", True):
+        bad.append(("axes-not-in-figure", "returned axes do not belong to the returned figure"))
+    if cfg["mode"] in ("lines", "xvar"):
+        oracle_lines(cfg, obs, E, bad, info)
+    elif cfg["mode"] == "hist":
+        oracle_hist(cfg, obs, E, bad, info)
+    else:
+        oracle_heat(cfg, obs, E, bad, info)
+    return bad, info
+
+
+def expected_lines(E):
+    """combo -> series, for the combinations that have data (some point with x and y both present)."""
+    out = {}
+    for combo in E.combos():
+        s = E.series(combo)
+        if any(x is not None and y is not None for x, y, _, _ in s):
+            out[combo] = s
+    return out
+
+
+def combo_of_ridx(E, ridx):
+    return tuple(tuple(int(ridx[d]) for d in ax["dims"]) for ax in E.axes)
+
+
+def oracle_lines(cfg, obs, E, bad, info):
+    R, C = obs["shape"]
+    want = expected_lines(E)
+    info["expected_lines"] = len(want)
+    allcombos = set(E.combos())
+    ytab = E.Ared
+    placed, count = [], {}
+    info["placed"] = placed
+    xd = cfg["xdim"]
+    for i in range(R):
+        for j in range(C):
+            P = obs["panels"][i][j]
+            for ln in P["lines"]:
+                if is_cap(ln):
+                    continue
+                combos = set()
+                unknown = False
+                for x, y in ln["xy"]:
+                    if y is None:
+                        continue
+                    hit = lookup(ytab, y)
+                    if len(hit) != 1:
+                        unknown = True
+                        continue
+                    ridx = np.unravel_index(hit[0], ytab.shape)
+                    combos.add(combo_of_ridx(E, ridx))
+                if unknown:
+                    bad.append(("line-value-not-in-dataset", f"panel ({i},{j}): a drawn y value is not a value of the dataset: {ln['xy'][:6]}"))
+                    continue
+                if not combos:
+                    bad.append(("line-without-data", f"panel ({i},{j}): a line without any value was drawn"))
+                    continue
+                if len(combos) > 1:
+                    bad.append(("line-mixes-slices", f"panel ({i},{j}): one line carries values of the slices {sorted(combos)}"))
+                    continue
+                combo = combos.pop()
+                count[combo] = count.get(combo, 0) + 1
+                placed.append((i, j, combo, ln))
+                if combo not in allcombos:
+                    bad.append(("unexpected-line", f"slice {combo} is outside the explicit orders but was drawn"))
+                    continue
+                s = E.series(combo)
+                exp = [(x, y) for x, y, _, _ in s]
+                if cfg["jam"]:
+                    exp = [(x, y) for x, y in exp if x is not None and y is not None]
+                got = [tuple(p) for p in ln["xy"]]
+                if len(got) != len(exp) or not all(close(a, c) and close(b, d) for (a, b), (c, d) in zip(got, exp)):
+                    bad.append(("line-data-differs", f"slice {combo}: drawn {got[:8]} expected {exp[:8]} "
+                                                     f"(join_across_missing={cfg['jam']})"))
+    for combo in want:
+        if count.get(combo, 0) == 0:
+            bad.append(("slice-missing", f"slice {combo} has data but no line was drawn for it"))
+    for combo, k in count.items():
+        if k > 1:
+            bad.append(("slice-drawn-twice", f"slice {combo} was drawn {k} times"))
+    check_panels_and_styles(cfg, obs, E, placed, bad)
+    if E.aggregated:
+        check_spread(cfg, obs, E, placed, bad, info)
+
+
+def spread_bounds(E):
+    cfg = E.cfg
+    r = cfg.get("agg_err")
+    r = 0.5 if r is None else r
+    if r == "std":
+        m, s = E.reduce(E.A, "mean"), E.reduce(E.A, "std")
+        return m - s, m + s
+    if r == "stderr":
+        m, s, cnt = E.reduce(E.A, "mean"), E.reduce(E.A, "std"), E.reduce(E.A, "count")
+        with np.errstate(all="ignore"):
+            se = s / np.sqrt(cnt)
+        return m - se, m + se
+    r = min(max(0.0, float(r)), 1.0)
+    return E.reduce(E.A, "quantile", 0.5 - r / 2.0), E.reduce(E.A, "quantile", 0.5 + r / 2.0)
+
+
+def check_spread(cfg, obs, E, placed, bad, info):
+    """TEST ONLY (numeric, tolerance): the band / bars drawn with an aggregated line show the requested range."""
+    style = cfg.get("err_style") or "band"
+    lo, hi = spread_bounds(E)
+    xd = cfg["xdim"]
+    R, C = obs["shape"]
+    for i in range(R):
+        for j in range(C):
+            P = obs["panels"][i][j]
+            mine = [t for t in placed if t[0] == i and t[1] == j]
+            arts = P["polys"] if style == "band" else P["segments"]
+            if len(arts) != len(mine):
+                bad.append(("spread-count-differs", f"panel ({i},{j}): {len(mine)} lines but {len(arts)} error {style}s"))
+                continue
+            pool = [v for a in arts for path in a for v in path]
+            for (_, _, combo, ln) in mine:
+                s = E.series(combo)
+                for xp, (x, y, _, _) in enumerate(s):
+                    idx = E.index_of(combo, xp)
+                    ridx = tuple(0 if d in E.agg else idx[d] for d in range(E.n))
+                    l, h = I.fnum(lo[ridx]), I.fnum(hi[ridx])
+                    if x is None or y is None or l is None or h is None:
+                        continue
+                    if style == "bars":
+                        l, h = y - abs(y - l), y + abs(h - y)
+                    for v in (l, h):
+                        if not any(a is not None and b is not None and close(a, x) and close(b, v) for a, b in pool):
+                            bad.append(("spread-value-differs", f"slice {combo}: no error-{style} vertex at ({x}, {v}) "
+                                                                f"[range {cfg.get('agg_err')!r}]"))
+                            break
+    info["spread_checked"] = True
+
+
+# ---------------------------------------------------------------- histogram
+def hist_edges(cfg, E):
+    """The bin edges the property statement implies: the explicit edges, or linspace(min, max, nbins + 1) over the
+    values inside the explicit orders (numpy.linspace is library behaviour)."""
+    b = cfg.get("bins")
+    if isinstance(b, list):
+        return [float(x) for x in b]
+    ok = E.allowed_mask() & ~np.isnan(E.A)
+    vals = E.A[ok]
+    if b is None:
+        S = math.prod(E.sizes[d] for d in E.binned)
+        nb = min(max(3, int(S ** 0.5)), 50)
+    else:
+        nb = int(b)
+    return [float(x) for x in np.linspace(float(vals.min()), float(vals.max()), nb + 1)]
+
+
+def py_counts(edges, vals):
+    """numpy's rule: half-open bins, the last one closed; values outside [e_0, e_n] are not counted."""
+    nb = len(edges) - 1
+    out = [0] * nb
+    for v in vals:
+        for k in range(nb):
+            if edges[k] <= v and (v < edges[k + 1] or (k == nb - 1 and v <= edges[k + 1])):
+                out[k] += 1
+                break
+    return out
+
+
+def expected_hist(cfg, E, combo, edges):
+    cnt = py_counts(edges, E.hist_values(combo))
+    T = sum(cnt)
+    if not cfg.get("bins_density", True):
+        return cnt, T, [float(c) for c in cnt]
+    if T == 0:
+        return cnt, T, None
+    return cnt, T, [c / (T * (edges[k + 1] - edges[k])) for k, c in enumerate(cnt)]
+
+
+def line_label(cfg, E, combo):
+    pa = prop_axes(E)
+    keys = []
+    for p in ("hue", "color", "marker", "markersize", "linewidth", "linestyle"):
+        if p in pa:
+            ax = E.axes[pa[p]]
+            keys.append(value_str(cfg, ax["dims"], combo[pa[p]]))
+    return ", ".join(keys)
+
+
+def oracle_hist(cfg, obs, E, bad, info):
+    R, C = obs["shape"]
+    pa = prop_axes(E)
+    edges = hist_edges(cfg, E)
+    info["edges"] = edges
+    if any(b <= a for a, b in zip(edges, edges[1:])):
+        info["degenerate"] = True        # a single distinct value with default bins: zero-width bins (outside the guard)
+        return
+    centres = [(edges[k] + edges[k + 1]) / 2 for k in range(len(edges) - 1)]
+    dens = cfg.get("bins_density", True)
+    # identify the panels by their titles and the lines by their labels (histogram heights carry no ids)
+    def title(combo):
+        parts = []
+        for prop in ("col", "row"):
+            if prop in pa:
+                ax = E.axes[pa[prop]]
+                parts.append(f"{bold(axis_name(cfg, ax['dims']))}={value_str(cfg, ax['dims'], combo[pa[prop]])}")
+        return ", ".join(parts)
+    bykey = {}
+    for combo in E.combos():
+        bykey.setdefault((title(combo), line_label(cfg, E, combo)), []).append(combo)
+    placed, count = [], {}
+    info["placed"] = placed
+    for i in range(R):
+        for j in range(C):
+            P = obs["panels"][i][j]
+            t = P["texts"][0] if P["texts"] else ""
+            lines = [ln for ln in P["lines"] if not is_cap(ln)]
+            if len(P["polys"]) != len(lines):
+                bad.append(("histogram-fill-count-differs", f"panel ({i},{j}): {len(lines)} lines, {len(P['polys'])} fills"))
+            for ln in lines:
+                lab = "" if ln["label"].startswith("_child") else ln["label"]
+                cands = bykey.get((t, lab), [])
+                if len(cands) != 1:
+                    bad.append(("histogram-line-unidentified", f"panel ({i},{j}) title {t!r} label {lab!r}: {len(cands)} candidate slices"))
+                    continue
+                combo = cands[0]
+                count[combo] = count.get(combo, 0) + 1
+                placed.append((i, j, combo, ln))
+                cnt, T, want = expected_hist(cfg, E, combo, edges)
+                got = ln["xy"]
+                if want is None:
+                    bad.append(("histogram-line-without-data", f"slice {combo} has no value inside the bins but a density was drawn"))
+                    continue
+                ok = len(got) == len(want) and all(close(g[0], c) and close(g[1], w) for g, c, w in zip(got, centres, want))
+                if not ok:
+                    bad.append(("histogram-differs", f"slice {combo}: drawn {[g[1] for g in got][:8]} at {[g[0] for g in got][:8]}; "
+                                                     f"true {'density' if dens else 'counts'} {want[:8]} at {centres[:8]} "
+                                                     f"(edges {edges[:9]}, counts {cnt[:8]})"))
+                if ln["drawstyle"] != "steps-mid":
+                    bad.append(("histogram-drawstyle", f"histogram drawn with drawstyle {ln['drawstyle']}"))
+    for combo in E.combos():
+        cnt, T, want = expected_hist(cfg, E, combo, edges)
+        if T > 0 and count.get(combo, 0) == 0:
+            bad.append(("slice-missing", f"slice {combo} has {T} values inside the bins but no histogram was drawn"))
+    for combo, k in count.items():
+        if k > 1:
+            bad.append(("slice-drawn-twice", f"slice {combo} was drawn {k} times"))
+    check_panels_and_styles(cfg, obs, E, placed, bad)
+
+
+# ---------------------------------------------------------------- heat map
+def oracle_heat(cfg, obs, E, bad, info):
+    import warnings
+    R, C = obs["shape"]
+    pa = prop_axes(E)
+    xd, yd = cfg["xdim"], cfg["ydim"]
+    xs = [float(v) for v in cfg["coords"][xd]]
+    ys = [float(v) for v in cfg["coords"][yd]]
+    ztab = E.Ared
+    placed = []
+    info["placed"] = placed
+    count = {}
+    finite_all = ztab[np.isfinite(ztab) & E_allowed_reduced(E)]
+    max_mag = float(np.max(np.abs(finite_all))) if finite_all.size else None
+
+    def expect_matrix(combo):
+        idx = E.index_of(combo)
+        m = [[None] * len(xs) for _ in ys]
+        for a in range(len(ys)):
+            for b in range(len(xs)):
+                k = list(idx)
+                k[yd], k[xd] = a, b
+                ridx = tuple(0 if d in E.agg else k[d] for d in range(E.n))
+                m[a][b] = I.fnum(ztab[ridx])
+        return m
+
+    def title(combo):
+        parts = []
+        for prop in ("col", "row"):
+            if prop in pa:
+                ax = E.axes[pa[prop]]
+                parts.append(f"{bold(axis_name(cfg, ax['dims']))}={value_str(cfg, ax['dims'], combo[pa[prop]])}")
+        return ", ".join(parts)
+    bytitle = {}
+    for combo in E.combos():
+        bytitle.setdefault(title(combo), []).append(combo)
+    for i in range(R):
+        for j in range(C):
+            P = obs["panels"][i][j]
+            if len(P["meshes"]) != 1:
+                bad.append(("heatmap-mesh-count", f"panel ({i},{j}) holds {len(P['meshes'])} meshes"))
+                continue
+            M = P["meshes"][0]
+            t = P["texts"][0] if P["texts"] else ""
+            combo = None
+            if "z" in M:       # identify by the data
+                combos = set()
+                for row in M["z"]:
+                    for v in row:
+                        if v is None:
+                            continue
+                        hit = lookup(ztab, v)
+                        if len(hit) != 1:
+                            combos.add(None)
+                            continue
+                        combos.add(combo_of_ridx(E, np.unravel_index(hit[0], ztab.shape)))
+                if None in combos:
+                    bad.append(("heatmap-value-not-in-dataset", f"panel ({i},{j}): a drawn z value is not a value of the dataset"))
+                    continue
+                if len(combos) > 1:
+                    bad.append(("heatmap-mixes-slices", f"panel ({i},{j}) mixes the slices {sorted(combos)}"))
+                    continue
+                if combos:
+                    combo = combos.pop()
+            if combo is None:  # all-NaN panel or explicit colours: identify by the title
+                c = bytitle.get(t, [])
+                if len(c) != 1:
+                    bad.append(("heatmap-panel-unidentified", f"panel ({i},{j}) titled {t!r}: {len(c)} candidate slices"))
+                    continue
+                combo = c[0]
+            count[combo] = count.get(combo, 0) + 1
+            placed.append((i, j, combo, None))
+            want = expect_matrix(combo)
+            if M["shape"][:2] != [len(ys), len(xs)]:
+                bad.append(("heatmap-mesh-shape", f"slice {combo}: mesh of shape {M['shape']} for {len(ys)} y and {len(xs)} x values"))
+                continue
+            if "z" in M:
+                if not all(close(M["z"][a][b], want[a][b]) for a in range(len(ys)) for b in range(len(xs))):
+                    bad.append(("heatmap-values-differ", f"slice {combo}: drawn {M['z']} expected {want}"))
+            else:
+                from xyzpy.plot.plotter_matplotlib import to_colors
+                for a in range(len(ys)):
+                    for b in range(len(xs)):
+                        got = M["rgba"][a][b]
+                        if want[a][b] is None:
+                            exp = (0.5, 0.5, 0.5, 0.5)
+                        else:
+                            with warnings.catch_warnings():
+                                warnings.simplefilter("ignore")
+                                exp = tuple(np.asarray(to_colors(np.array([want[a][b]]), alpha_pow=0.0, max_mag=max_mag)[0])[0])
+                        if not all(abs(g - e) <= 1e-6 for g, e in zip(got, exp)):
+                            bad.append(("heatmap-colours-differ", f"slice {combo} cell ({a},{b}): colour {got} but z={want[a][b]} maps to {exp}"))
+                            break
+            # the mesh: cell (a, b) must contain the point (x_b, y_a)
+            xe, ye = M["xedges"], M["yedges"]
+            okx = len(xe) == len(xs) + 1 and all(min(xe[b], xe[b + 1]) - 1e-9 <= xs[b] <= max(xe[b], xe[b + 1]) + 1e-9 for b in range(len(xs)))
+            oky = len(ye) == len(ys) + 1 and all(min(ye[a], ye[a + 1]) - 1e-9 <= ys[a] <= max(ye[a], ye[a + 1]) + 1e-9 for a in range(len(ys)))
+            if not (okx and oky and M["xedges_const"] and M["yedges_const"]):
+                bad.append(("heatmap-mesh-misplaced", f"slice {combo}: mesh edges x {xe} y {ye} do not enclose x {xs} y {ys}"))
+    for combo, k in count.items():
+        if k > 1:
+            bad.append(("slice-drawn-twice", f"slice {combo} was drawn {k} times"))
+    # every combination with data must be shown
+    for combo in E.combos():
+        m = expect_matrix(combo)
+        if any(v is not None for row in m for v in row) and count.get(combo, 0) == 0:
+            bad.append(("slice-missing", f"slice {combo} has data but no mesh was drawn for it"))
+    check_panels_heat(cfg, obs, E, placed, bad)
+
+
+def E_allowed_reduced(E):
+    ok = E.allowed_mask()
+    if E.agg:
+        ok = np.any(ok, axis=tuple(E.agg), keepdims=True)
+    return ok
+
+
+def check_panels_heat(cfg, obs, E, placed, bad):
+    fake = [(i, j, combo, {"color": (0, 0, 0, 1), "marker": "", "markersize": 0.0, "linewidth": 0.0, "dash": [0.0, None]})
+            for i, j, combo, _ in placed]
+    check_panels_and_styles(cfg, obs, E, fake, bad)
+
+
+# ------------------------------------------------------------------------------------------ the Coq model side
+PROP_ID = {p: i for i, p in enumerate(FIXED_ORDER)}
+
+
+def coq_nat(n):
+    return f"{int(n)}%nat"
+
+
+def coq_optnat(n):
+    return "None" if n is None else f"(Some {int(n)}%nat)"
+
+
+def coq_optz_list(flat):
+    return "[" + "; ".join("None" if v is None else f"Some ({int(v)})" for v in flat) + "]"
+
+
+def coq_labels(labs):
+    return "[" + "; ".join(core.zlist(l) for l in labs) + "]"
+
+
+def coq_bool(b):
+    return "true" if b else "false"
+
+
+def hist_scaled(cfg, E, edges):
+    """values and edges as integers in units of 1/8, or None when they are not all multiples of 1/8."""
+    def s8(v):
+        f = Fraction(v) * 8
+        return int(f) if f.denominator == 1 else None
+    ev = [s8(e) for e in edges]
+    vv = [None if v is None else s8(v) for v in cfg["vals"]]
+    if any(e is None for e in ev) or any(v is None and o is not None for v, o in zip(vv, cfg["vals"])):
+        return None
+    return vv, ev
+
+
+def spec_expr(cfg, E, iter_dims, edges=None):
+    mode = cfg["mode"]
+    names = cfg["names"]
+    n = len(names)
+    if mode == "hist":
+        sc = hist_scaled(cfg, E, edges)
+        if sc is None:
+            return None
+        yflat, ev = sc
+    else:
+        yflat = [None if v is None else k for k, v in enumerate(cfg["vals"])]
+        ev = []
+    xflat = "None"
+    if cfg.get("xvals") is not None:
+        xflat = "(Some " + coq_optz_list([None if v is None else k for k, v in enumerate(cfg["xvals"])]) + ")"
+    maps = "[" + "; ".join(
+        f"mk_mprop {PROP_ID[m['prop']]}%nat {core.natlist(m['dims'])} "
+        + ("None" if m["order"] is None else f"(Some {coq_labels(m['order'])})") for m in cfg["maps"]) + "]"
+    agg = cfg.get("agg")
+    aggall = mode == "hist" or agg is True or agg == "default"
+    agglist = list(agg) if isinstance(agg, list) else []
+    it = []
+    for nm in iter_dims:
+        it.append([names.index(x) for x in nm.split(", ")])
+    iters = "[" + "; ".join(core.natlist(d) for d in it) + "]"
+    return (f"(mk_spec {core.natlist(cfg['sizes'])} {coq_optz_list(yflat)} {xflat} {coq_optnat(cfg['xdim'])} "
+            f"{coq_optnat(cfg['ydim'])} {maps} {coq_bool(aggall)} {core.natlist(agglist)} {iters} "
+            f"{coq_bool(cfg.get('jam'))} {coq_bool(cfg.get('palette') is not None)} 8 {core.zlist(ev)} "
+            f"{coq_bool(cfg.get('bins_density', True))} {coq_bool(mode == 'hist' and cfg.get('bins') is None)})")
+
+
+def members_of(E, arr, table, v):
+    """canonical cell of a drawn float: the ids of the source values it is made of."""
+    if v is None:
+        return None
+    hit = lookup(table, v)
+    if len(hit) != 1:
+        return "?"
+    ridx = np.unravel_index(hit[0], table.shape)
+    return E.cell_members(arr, [int(k) for k in ridx])
+
+
+def canon_style(cfg, E, ln, tabs):
+    pa = prop_axes(E)
+    out = []
+    # colour
+    rgba = tuple(round(c, 9) for c in ln["color"])
+    if "hue" in pa and "color" in pa:
+        c = hue_color_param(rgba)
+        out.append(["ht", [c[0][0], c[0][1]], [c[0][2], c[0][3]]] if len(c) == 1 else ["?", len(c)])
+    elif "color" in pa:
+        if cfg.get("palette") is not None:
+            c = palette_param(cfg["palette"], rgba)
+            out.append(["t", c[0]] if len(c) == 1 else ["?", len(c)])
+        else:
+            ks = [k for k, col in enumerate(tabs["colors"]) if tuple(round(x, 9) for x in col) == rgba]
+            out.append(["idx", ks[0]] if len(ks) == 1 else ["?", len(ks)])
+    else:
+        out.append(None)
+    if "marker" in pa:
+        out.append(tabs["markers"].index(ln["marker"]) if ln["marker"] in tabs["markers"] else "?")
+    else:
+        out.append(None)
+    out.append((frac_of(ln["markersize"]) or "?") if "markersize" in pa else None)
+    if "linestyle" in pa:
+        d = (ln["dash"][0], None if ln["dash"][1] is None else tuple(ln["dash"][1]))
+        out.append(tabs["dashes"].index(d) if d in tabs["dashes"] else "?")
+    else:
+        out.append(None)
+    out.append((frac_of(ln["linewidth"]) or "?") if "linewidth" in pa else None)
+    return out
+
+
+def canonical(cfg, obs, E, edges=None):
+    """The artists in the vocabulary of the model (nested lists / ints / None / str)."""
+    tabs = default_tables()
+    R, C = obs["shape"]
+    mode = cfg["mode"]
+    panels = []
+    for i in range(R):
+        for j in range(C):
+            P = obs["panels"][i][j]
+            items = []
+            if mode in ("lines", "xvar"):
+                for ln in P["lines"]:
+                    if is_cap(ln):
+                        continue
+                    pts = []
+                    for x, y in ln["xy"]:
+                        if E.X is None:
+                            hit = [k for k, c in enumerate(cfg["coords"][cfg["xdim"]]) if x is not None and float(c) == x]
+                            xc = [hit[0]] if len(hit) == 1 else (None if x is None else "?")
+                        else:
+                            xc = members_of(E, E.X, E.Xred, x)
+                        pts.append([xc, members_of(E, E.A, E.Ared, y)])
+                    items.append([pts, canon_style(cfg, E, ln, tabs)])
+            elif mode == "hist":
+                for ln in P["lines"]:
+                    if is_cap(ln):
+                        continue
+                    hs = [None if y is None else (frac_of(y, 10 ** 7) or "?") for _, y in ln["xy"]]
+                    items.append([hs, canon_style(cfg, E, ln, tabs)])
+            else:
+                for M in P["meshes"]:
+                    if "z" in M:
+                        items.append([[members_of(E, E.A, E.Ared, v) for v in row] for row in M["z"]])
+                    else:
+                        items.append([[None if all(abs(c - 0.5) < 1e-12 for c in cell) else 1 for cell in row] for row in M["rgba"]])
+            panels.append(items)
+    out = [[R, C], panels]
+    if mode == "hist":
+        out = [True, out]
+    return out
+
+
+def model_pair(cfg, obs, E, edges=None):
+    it = obs.get("iter_dims")
+    if not isinstance(it, list):
+        return None
+    sp = spec_expr(cfg, E, it, edges)
+    if sp is None:
+        return None
+    fn = {"lines": "enc_lines", "xvar": "enc_lines", "hist": "enc_hist", "heat": "enc_heat"}[cfg["mode"]]
+    return f"{fn} {sp}", canonical(cfg, obs, E, edges)
